@@ -45,10 +45,10 @@ def memo(f):
     return g
 
 class Storage:
-    __slots__ = ('fn', 'version', 'name', 'log', 'snap', 'writeback')
-    def __init__(self, fn, name=None, memoise=True):
+    __slots__ = ('fn', 'version', 'name', 'log', 'snap', 'writeback', 'shape')
+    def __init__(self, fn, name=None, memoise=True, shape=None):
         self.fn = memo(fn) if memoise else fn; self.version = 0; self.name = name; self.log = None
-        self.snap = None; self.writeback = None
+        self.snap = None; self.writeback = None; self.shape = shape
     def set(self, fn):
         self.fn = memo(fn); self.version += 1
 
@@ -87,7 +87,7 @@ class ndarray:
     # ---- construction
     @staticmethod
     def fresh(shape, fn, dtype, name=None, memoise=True):
-        return ndarray(shape, dtype, Storage(fn, name, memoise))
+        return ndarray(shape, dtype, Storage(fn, name, memoise, tuple(shape)))
     @property
     def ndim(self): return len(self.shape)
     @property
@@ -205,6 +205,7 @@ class ndarray:
         dt = self.dtype; old = self.st.snap() if self.st.snap is not None else self.st.fn
         vd = self.vd; fixed = dict(self.fixed); shape = self.shape
         axes = [(v, d) for v, d in enumerate(vd) if d[0] == 'ax']
+        stshape = self.st.shape
         def newfn(J):
             conds = []; vi = [0] * len(shape)
             for a, c in fixed.items():
@@ -220,7 +221,8 @@ class ndarray:
                     e = _idx_eq((j - start) % step, 0)
                     if e is False: return old(J)
                     if e is not True: conds.append(e)
-                for e in (_idx_le(0, i), _idx_lt(i, n)):
+                full = (stshape is not None and step == 1 and isinstance(start, int) and start == 0 and _same_dim(n, stshape[a]))
+                for e in (() if full else (_idx_le(0, i), _idx_lt(i, n))):     # a region spanning the whole axis needs no range condition
                     if e is False: return old(J)
                     if e is not True: conds.append(e)
                 vi[v] = i
@@ -632,7 +634,7 @@ def _reshape(a, shape, copy=False):
 def _same_dim(x, y):
     if isinstance(x, int) and isinstance(y, int): return x == y
     if isinstance(x, int) or isinstance(y, int): return False
-    return x.z.eq(y.z)
+    return x.z.eq(y.z) or z3.simplify(x.z - y.z).eq(z3.IntVal(0))
 
 def _strides(sh):
     s = []; acc = 1
@@ -706,11 +708,15 @@ def from_real(arr):
     t.concrete = arr
     return t
 
+CONST_HOOK = [None]      # callable(real_array, storage, concrete index) -> scalar or None : opaque named constants
 TABLE_HOOK = [None]      # callable(real_array, storage, index_tuple) -> scalar or None : table contracts (symbolic look-ups)
 
 def _table_fn(arr, conv, st):
     def fn(i):
         if builtins.all(isinstance(k, int) for k in i):
+            if CONST_HOOK[0] is not None:
+                r = CONST_HOOK[0](arr, st, i)
+                if r is not None: return r
             return conv(arr[i])
         if TABLE_HOOK[0] is not None:
             r = TABLE_HOOK[0](arr, st, i)
